@@ -245,6 +245,39 @@ func (fr *Frame) applyContract(spec *FuncSpec, fn *ssa.Function, sig *types.Sign
 		}
 		e.oblige("call.pre", spec.Key+":"+c.Label, st.pc, t, nil, pos, fr.srcText(pos))
 	}
+	// a conforming method is also bound by the requires of the interface contract it conforms to (its ensures are
+	// offered to static callers below)
+	if spec.Conforms != "" && fn != nil && len(args) > 0 {
+		if is := e.g.specs.Funcs[spec.Conforms]; is != nil {
+			recvT := fn.Params[0].Type()
+			self := &Val{T: fmt.Sprintf("(mk-iface %d %s)", e.tagOf(recvT), args[0].T), S: "Iface"}
+			ik := spec.Conforms[1:strings.Index(spec.Conforms, ")")]
+			if it := e.typeByKey(ik); it != nil {
+				self.GoT = it
+			}
+			cf.env["self"] = self
+			for i, n := range is.Names {
+				if i == 0 || i >= len(args) {
+					continue
+				}
+				cf.env[n] = args[i]
+			}
+			if al := e.g.specs.Abstractions[typeKey(e.g, recvT)]; al != nil {
+				rv := *args[0]
+				rv.GoT = recvT
+				cf.ghostAlias, cf.aliasSelf, cf.aliasRecv = al, self, &rv
+			}
+			for _, c := range is.Requires {
+				cf.unaliased = ""
+				t, err := cf.evalClause(c, pre, pre, nil, nil)
+				if err != nil || cf.unaliased != "" {
+					continue
+				}
+				e.oblige("call.pre", spec.Key+":"+spec.Conforms+":"+c.Label, st.pc, t, nil, pos, fr.srcText(pos))
+			}
+			cf.ghostAlias, cf.aliasSelf, cf.aliasRecv = nil, nil, nil
+		}
+	}
 	// non-nil receiver / pointer params are part of every contract unless nilable
 	// havoc
 	nx0 := e.next(st)
@@ -297,6 +330,39 @@ func (fr *Frame) applyContract(spec *FuncSpec, fn *ssa.Function, sig *types.Sign
 		}
 		e.trusted["assumed clause "+spec.Key+"["+c.Label+"]"] = true
 		e.assume(st.pc, t)
+	}
+	// a method that is verified against an interface contract ("conforms") offers the ensures of that contract to
+	// its static callers as well, read off the implementation's own state through the abstraction of the receiver
+	if spec.Conforms != "" && fn != nil && len(args) > 0 {
+		if is := e.g.specs.Funcs[spec.Conforms]; is != nil {
+			recvT := fn.Params[0].Type()
+			self := &Val{T: fmt.Sprintf("(mk-iface %d %s)", e.tagOf(recvT), args[0].T), S: "Iface"}
+			ik := spec.Conforms[1:strings.Index(spec.Conforms, ")")]
+			if it := e.typeByKey(ik); it != nil {
+				self.GoT = it
+			}
+			cf.env["self"] = self
+			for i, n := range is.Names {
+				if i == 0 || i >= len(args) {
+					continue
+				}
+				cf.env[n] = args[i]
+			}
+			if al := e.g.specs.Abstractions[typeKey(e.g, recvT)]; al != nil {
+				rv := *args[0]
+				rv.GoT = recvT
+				cf.ghostAlias, cf.aliasSelf, cf.aliasRecv = al, self, &rv
+			}
+			for _, c := range is.Ensures {
+				cf.unaliased = ""
+				t, err := cf.evalClause(c, st, pre, nil, nil)
+				if err != nil || cf.unaliased != "" {
+					continue
+				}
+				e.assume(st.pc, t)
+			}
+			cf.ghostAlias, cf.aliasSelf, cf.aliasRecv = nil, nil, nil
+		}
 	}
 	fr.assumeHeapInvs(st)
 	return res
